@@ -43,6 +43,21 @@ Theorem C10_run_indep : forall b1 c1 b2 c2 l1 l2, 0 <= c1 -> 0 <= c2 ->
 Proof. exact run_indep. Qed.
 Print Assumptions C10_run_indep.
 
+(* Outside the operation set on purpose: a raw ADDRESS of the top slot taken before a call (what caching
+   `vm.spAdd(-1)` across CallMethod in opNext would do) and written through afterwards.  Without a growth in
+   between the write is visible; after a reallocation it lands in the abandoned array and is LOST, while the
+   same write through the re-derived stack pointer is visible - so code that caches slot addresses across a
+   call makes results depend on the initial stack size.  The machine operations covered by C10_run_indep only
+   address slots relative to the current sp/fp. *)
+Theorem C10_stale_slot_address_refuted :
+  exists s nb v, GInv s /\
+    let a := sp s - W in
+    abs (poke s a v) <> abs s /\
+    abs (poke (grow s nb) a v) = abs (grow s nb) /\
+    abs (poke (grow s nb) (sp (grow s nb) - W) v) <> abs (grow s nb).
+Proof. exact stale_slot_address. Qed.
+Print Assumptions C10_stale_slot_address_refuted.
+
 Example C10_run_indep_nonvacuous :
   let l1 := [OPush 1; OPush 2; OCapture 1; OGrow 5000; OCall 1; OPush 3; OGetUp 0; ORet; OSetUp 0 9; OGetLocal 1; OGetUp 0] in
   let l2 := [OPush 1; OPush 2; OCapture 1; OCall 1; OPush 3; OGrow 90000; OGetUp 0; ORet; OGrow 7; OSetUp 0 9; OGetLocal 1; OGetUp 0] in
